@@ -4,6 +4,21 @@ package store
 
 // Contracts for the verifier in /verif (comment-only; see /verif/DESIGN.md §3).
 
+// The store is an external, possibly failing dependency (DESIGN.md §4.4): its methods may
+// return anything. Only the absence of effects on pike's heap and of panics is assumed.
+
 //@ func NewStore(storeURL string) (store Store, err error)
+//@   trusted
+//@   nopanic
+
+//@ func (s Store) Get(key []byte) (data []byte, err error)
+//@   trusted
+//@   nopanic
+
+//@ func (s Store) Set(key []byte, data []byte, ttl time.Duration) (err error)
+//@   trusted
+//@   nopanic
+
+//@ func (s Store) Delete(key []byte) (err error)
 //@   trusted
 //@   nopanic
